@@ -26,8 +26,10 @@
    indices, the old refutation witness is the positive [C05_duplicate_bit_document_read]).
    Repaired K4: bit identifiers starting with "&_" are bits like any others ([C05_bit_ident_exact] is
    unconditional, [C05_bitname_inverse] / [C05_bus_read] lose the identifier side condition,
-   [C05_amp_bits_merged] is the former witness). Still open on the bit-net side: K9 (names starting
-   with a backslash: [name_ok]), K10, K13 ([nets_ok]).
+   [C05_amp_bits_merged] is the former witness). Repaired K9: names starting with a backslash are
+   split like any others ([C05_bit_name_exact] unconditional, [name_ok] is gone from every theorem,
+   [C05_nets_complete] needs no hypothesis on the names: [C05_net_bit_total]). Still open on the
+   bit-net side: K10, K13 ([nets_ok]).
    Repaired reader defects (K14, K15, K16), now positive statements: an instance without viewRef and an
    array port of size < 1 are refused ([C05_instances_referenced_ports_nonempty], examples
    [C05_bare_instance_rejected], [C05_array_size_zero_rejected]); everything after the design construct
@@ -68,9 +70,7 @@ Proof. exact tokenize_quote_joins_buffer. Qed.
 
 (* which nets are bits: complete characterisation of separate_name_and_index on the two forms *)
 Theorem C05_bit_name_exact : forall (name : str) (i : N),
-  sep_bracket (bit_name name i) =
-  if negb (N.eqb (hd c_lbr name) c_bsl) || Nat.eqb (length (split_on c_space name)) 2
-  then Some (Some i, name) else Some (None, bit_name name i).
+  sep_bracket (bit_name name i) = Some (Some i, name).
 Proof. exact bitname_bracket_full. Qed.
 Print Assumptions C05_bit_name_exact.
 
@@ -80,7 +80,6 @@ Proof. exact bitname_underscore_full. Qed.
 Print Assumptions C05_bit_ident_exact.
 
 Theorem C05_bitname_inverse : forall (ident name : str) (i : N),
-  (match name with c :: _ => c <> c_bsl | [] => True end) ->
   net_bit (bit_ident ident i) (bit_name name i) = Some (Some i, name, ident).
 Proof. exact bitname_inverse. Qed.
 Print Assumptions C05_bitname_inverse.
@@ -136,7 +135,7 @@ Print Assumptions C05_multibit_subset.
 (* the nets "id_i_"/"name[i]" of a bus, whichever bits are present and in whatever order, are read
    as ONE cable (name, id) = the cable [assemble] describes *)
 Theorem C05_bus_read : forall P ident name (bits : list (N * list P)) nets c,
-  name_ok name -> NoDup (idxs bits) -> bits <> [] ->
+  NoDup (idxs bits) -> bits <> [] ->
   nets = map (fun '(i, w) => (bit_ident ident i, bit_name name i, w)) bits ->
   read_cable nets = Some (name, ident, c) ->
      c_lower c = min_idx (idxs bits)
@@ -149,7 +148,7 @@ Proof. exact bus_subset_positions. Qed.
 Print Assumptions C05_bus_read.
 
 Theorem C05_bus_read_exists : forall P ident name (bits : list (N * list P)) nets,
-  name_ok name -> NoDup (idxs bits) -> bits <> [] ->
+  NoDup (idxs bits) -> bits <> [] ->
   nets = map (fun '(i, w) => (bit_ident ident i, bit_name name i, w)) bits ->
   exists c, read_cable nets = Some (name, ident, c).
 Proof. exact bus_subset_read. Qed.
@@ -257,11 +256,21 @@ Theorem C05_nets_sound : forall (P : Type) (nets : list (net P)) (s : list (entr
 Proof. exact nets_sound. Qed.
 Print Assumptions C05_nets_sound.
 
+(* (repaired K9: no net name makes the reader raise any more - the former hypothesis
+   forall nt, In nt nets -> net_bit (n_ident nt) (n_name nt) <> None holds for every net, [C05_net_bit_total]) *)
 Theorem C05_nets_complete : forall (P : Type) (nets : list (net P)),
-  nets_ok nets -> (forall nt, In nt nets -> net_bit (n_ident nt) (n_name nt) <> None) ->
-  exists s, read_nets [] nets = Some s.
-Proof. exact nets_complete. Qed.
+  nets_ok nets -> exists s, read_nets [] nets = Some s.
+Proof. exact nets_complete_all. Qed.
 Print Assumptions C05_nets_complete.
+
+Theorem C05_net_bit_total : forall ident name : str, net_bit ident name <> None.
+Proof. exact net_bit_total. Qed.
+Print Assumptions C05_net_bit_total.
+
+(* repaired K9: the former witness - bus "\x" written bit by bit as "\x[i]" - is read as one cable; the
+   escaped scalar "\x[3] " is no bit *)
+Example C05_backslash_bits_merged : ltac:(let t := type of bus_backslash_read in exact t).
+Proof. exact bus_backslash_read. Qed.
 
 (* a concrete supported document: two libraries, an array port, a renamed instance, member portRefs
    with out-of-order bus bits; it is accepted, every instance is referenced, the bus q of cell top
